@@ -157,7 +157,7 @@ addChild labels, `cut` is set once, by the `endLock` label that finds the span r
 that moment, and never changes afterwards. -/
 theorem ghost_meaning (s s' : St) (l : Lbl) (h : Reachable c s) (hs : step c s l = some s') :
     s'.hist = s.hist ++ (match l with | .mut op => [op] | _ => []) ∧
-    s'.childLabels = s.childLabels + (if l = .addChild then 1 else 0) ∧
+    s'.childLabels = s.childLabels + (match l with | .addChild _ => 1 | _ => 0) ∧
     (∀ k, s.cut = some k → s'.cut = some k) ∧
     (s.cut = none → ∀ k, s'.cut = some k →
       (∃ e t, l = .endLock e t) ∧ s.data.ended = false ∧ k = (s.hist.length, s.childLabels)) := by
@@ -231,6 +231,35 @@ theorem child_count_exact (s : St) (h : Reachable c s) :
   simp only [hk] at h2
   rw [h1]; exact h2
 
+/-- forget what the sampler decided for the children -/
+def forgetDecision : Lbl → Lbl
+  | .addChild _ => .addChild .recordAndSample
+  | l => l
+
+/-- **child counts do not depend on the children's sampling**: `tracer.Start` counts the child on its parent before
+`newSpan` consults the sampler, so a child the sampler drops (non-recording span) or records without sampling is counted
+exactly like a sampled one. The decision carried by an `addChild` label is read by no step; hence two label sequences
+that differ only in those decisions run to the same state — same child count, same delivered snapshots. Together with
+`child_count_exact`: the count is the number of children STARTED before the end label, whatever their sampling. -/
+theorem child_count_independent_of_child_sampling (s : St) :
+    (∀ d d', step c s (.addChild d) = step c s (.addChild d')) ∧
+    (∀ ls ls', ls.map forgetDecision = ls'.map forgetDecision → run c s ls = run c s ls') := by
+  have hstep : ∀ (s : St) (l : Lbl), step c s l = step c s (forgetDecision l) := by
+    intro s l; cases l <;> rfl
+  have hrun : ∀ (ls : List Lbl) (s : St), run c s ls = run c s (ls.map forgetDecision) := by
+    intro ls
+    induction ls with
+    | nil => intro s; rfl
+    | cons l r ih =>
+      intro s
+      simp only [run, runWith, List.map_cons, ← hstep s l]
+      cases step c s l with
+      | none => rfl
+      | some s1 => exact ih s1
+  refine ⟨fun d d' => rfl, ?_⟩
+  intro ls ls' h
+  rw [hrun ls s, hrun ls' s, h]
+
 /-- **no deadlock**: (i) every label, as a sequence of primitive actions on the single span mutex, locks at most once,
 unlocks what it locked and never calls out (OnEnd, runtime/trace task end) while holding it — so between labels the
 mutex is free; (ii) consequently nobody ever waits: in every state every mutator, child Start and accessor can take its
@@ -238,7 +267,7 @@ step, and every pending End call can take its next label, whatever the other gor
 a processor's OnEnd). -/
 theorem span_deadlock_free (s : St) :
     (∀ l : Lbl, lockScan false l.prims = some false) ∧
-    (∀ op, op ≠ .end_ → (step c s (.mut op)).isSome) ∧ (step c s .addChild).isSome ∧ (step c s .access).isSome ∧
+    (∀ op, op ≠ .end_ → (step c s (.mut op)).isSome) ∧ (∀ d, (step c s (.addChild d)).isSome) ∧ (step c s .access).isSome ∧
     (∀ x ∈ s.called, (step c s (.endLock x.1 x.2)).isSome) ∧
     (∀ e ∈ s.tasking, (step c s (.taskEnd e)).isSome) ∧
     (∀ e ∈ s.loading, (step c s (.loadProcs e)).isSome) ∧
@@ -366,8 +395,8 @@ the attribute set before the end, one child. -/
 def demoSchedule : List Lbl :=
   let sn : Snapshot := ⟨C04.snapshot (C04.run cfgDemo.lim (C04.init cfgDemo.name) [.setAttrs [⟨[0x61], .int 1⟩], .end_]),
     some 10, 1⟩
-  [.register 7, .register 8, .mut (.setAttrs [⟨[0x61], .int 1⟩]), .addChild, .endCall 1 10, .endCall 2 20,
-   .endLock 1 10, .mut (.setAttrs [⟨[0x62], .int 2⟩]), .addChild, .endLock 2 20, .taskEnd 1, .loadProcs 1,
+  [.register 7, .register 8, .mut (.setAttrs [⟨[0x61], .int 1⟩]), .addChild .drop, .endCall 1 10, .endCall 2 20,
+   .endLock 1 10, .mut (.setAttrs [⟨[0x62], .int 2⟩]), .addChild .recordOnly, .endLock 2 20, .taskEnd 1, .loadProcs 1,
    .unregister 8, .register 9, .snapshot 1 [7, 8], .onEnd 1 sn 7 [8], .mut (.setName [0x6e]), .access,
    .onEnd 1 sn 8 [], .endReturn 1 sn]
 
